@@ -361,6 +361,23 @@ type Defs2 struct {
 	HexV int64   `gorm:"default:0x10"`
 }
 
+// ---- T17 / T18: keys that are NOT generated by the database (string key; composite key) with
+// database-side default expressions on other columns ----
+type SDef struct {
+	Code string `gorm:"primaryKey"`
+	Mark string `gorm:"uniqueIndex"`
+	GenI int64  `gorm:"default:(abs(-42))"`
+	GenS string `gorm:"default:(lower('GEN'))"`
+	V    int64
+}
+type CDef struct {
+	Code string `gorm:"primaryKey"`
+	Seq  int32  `gorm:"primaryKey;autoIncrement:false"`
+	Mark string `gorm:"uniqueIndex"`
+	GenL int64  `gorm:"default:(length('abc'))"`
+	V    string
+}
+
 // ---- T11: the same struct embedded twice with different prefixes, inner `column:` rename ----
 type Addr struct {
 	City string
@@ -384,7 +401,7 @@ var registry = []struct {
 	{"Ints", reflect.TypeOf(Ints{})}, {"Scalars", reflect.TypeOf(Scalars{})}, {"Nulls", reflect.TypeOf(Nulls{})},
 	{"Sers", reflect.TypeOf(Sers{})}, {"Embs", reflect.TypeOf(Embs{})}, {"Defs", reflect.TypeOf(Defs{})},
 	{"Comp", reflect.TypeOf(Comp{})}, {"Keyed", reflect.TypeOf(Keyed{})}, {"StrKey", reflect.TypeOf(StrKey{})},
-	{"UnixU", reflect.TypeOf(UnixU{})}, {"Twice", reflect.TypeOf(Twice{})}, {"Loc", reflect.TypeOf(Loc{})}, {"Uid", reflect.TypeOf(Uid{})}, {"PTimes", reflect.TypeOf(PTimes{})}, {"Modeled", reflect.TypeOf(Modeled{})}, {"Defs2", reflect.TypeOf(Defs2{})},
+	{"UnixU", reflect.TypeOf(UnixU{})}, {"Twice", reflect.TypeOf(Twice{})}, {"Loc", reflect.TypeOf(Loc{})}, {"Uid", reflect.TypeOf(Uid{})}, {"PTimes", reflect.TypeOf(PTimes{})}, {"Modeled", reflect.TypeOf(Modeled{})}, {"Defs2", reflect.TypeOf(Defs2{})}, {"SDef", reflect.TypeOf(SDef{})}, {"CDef", reflect.TypeOf(CDef{})},
 }
 
 func typeByName(n string) reflect.Type {
